@@ -132,7 +132,7 @@ def cases(seed, tier, shard, nshards):
             text, _ = O.rename_gen_prog(text, rng, style)
             yield {"kind": "prog-" + style, "text": text, "cli": cli}
         elif r < 16:
-            t = O.gen_template(rng, opts=("lits", "fstr", "kwattr"), max_depth=rng.choice([2, 3, 3]),
+            t = O.gen_template(rng, opts=("lits", "fstr", "kwattr", "annot"), max_depth=rng.choice([2, 3, 3]),
                                budget=rng.choice([14, 22, 30]))
             style = rng.choice(["keyword", "keyword", "nonascii", "mixed", "benign"])
             names = O.names_for(rng, t, style)
